@@ -221,6 +221,125 @@ def second_oracle(src, action, args, dst):
 _nested_ok: dict = {}
 
 
+SCALE = 3 ** 40    # 12157665459056928801: odd, above 2**53, not exactly representable as a double
+
+
+def scaled_text(v, style='lit'):
+    """operand text of the exact value v multiplied by SCALE (int stays int, decimal stays decimal)"""
+    fr = frac(v) * SCALE
+    if v['t'] == 'int':
+        n = int(fr)
+        return str(n) if n >= 0 else f'({n})'
+    sd = dec_str(fr)
+    if '.' not in sd:
+        sd += '.0'
+    return sd if not sd.startswith('-') else f'({sd})'
+
+
+def scaled_expected(op, dst):
+    """the law LawScale of spec/Numeric.tla applied with K = SCALE"""
+    if dst['t'] == 'err' or op in ('idiv', 'div'):
+        return dst
+    k = SCALE * SCALE if op == 'mul' else SCALE
+    fr = frac(dst) * k
+    d = dict(dst)
+    d['q'] = (fr.numerator, fr.denominator)
+    return d
+
+
+def evaluate_seq(text: str, version: str):
+    """like evaluate() but for an expression returning a sequence: list of projected items"""
+    import elementpath
+    from elementpath.datatypes import Float
+    from elementpath.exceptions import ElementPathError
+    try:
+        r = elementpath.select(None, text, item=1, parser=parsers()[version])
+    except ElementPathError as e:
+        return ('err', (e.code or '').split(':')[-1])
+    except Exception as e:  # noqa
+        return ('escaped', type(e).__name__)
+    if not isinstance(r, list):
+        r = [r]
+    out = []
+    for x in r:
+        if isinstance(x, bool):
+            out.append(('other', repr(x)))
+        elif isinstance(x, int):
+            out.append(('int', Fraction(x)))
+        elif isinstance(x, Decimal):
+            out.append(('dec', Fraction(x)) if x.is_finite() else ('other', repr(x)))
+        elif isinstance(x, float):
+            t = 'flt' if isinstance(x, Float) else 'dbl'
+            if math.isnan(x):
+                out.append((t, 'nan'))
+            elif math.isinf(x):
+                out.append((t, 'pinf' if x > 0 else 'ninf'))
+            else:
+                out.append((t, 'fin', float(x), math.copysign(1.0, x) < 0 and x == 0.0))
+        else:
+            out.append(('other', type(x).__name__))
+    return out
+
+
+def batch_worker(job):
+    """(a) scaled vectors  (b) all operands of one (source, operator) in ONE expression with a `for`:
+    the same operator token is evaluated once per operand, so state kept on the token shows."""
+    batches, scaled = job
+    fails, n = [], 0
+    for (src, op, dsttext_pairs) in batches:
+        args = [a for a, d in dsttext_pairs]
+        if op in OPS:
+            text = f'for $b in ({", ".join(args)}) return {render(src, "lit")} {OPS[op]} $b'
+            vs = ['2.0', '3.1']
+        elif op == 'RoundTo':
+            text = f'for $p in ({", ".join(args)}) return round({render(src, "lit")}, $p)'
+            vs = ['3.0', '3.1']
+        else:
+            text = f'for $p in ({", ".join(args)}) return round-half-to-even({render(src, "lit")}, $p)'
+            vs = ['2.0', '3.1']
+        for v in vs:
+            obs = evaluate_seq(text, v)
+            n += 1
+            bad = None
+            if isinstance(obs, tuple):
+                bad = f'error:{obs[1]}'
+            elif len(obs) != len(dsttext_pairs):
+                bad = 'length'
+            else:
+                for (a, d), o in zip(dsttext_pairs, obs):
+                    out = compare(d, o, v)
+                    if out is not None:
+                        # the same operand evaluated alone: if it fails in the same way this is the
+                        # single-edge failure (reported by the edge replay), not an iteration effect
+                        if op in OPS:
+                            single = f'{render(src, "lit")} {OPS[op]} {a}'
+                        elif op == 'RoundTo':
+                            single = f'round({render(src, "lit")}, {a})'
+                        else:
+                            single = f'round-half-to-even({render(src, "lit")}, {a})'
+                        n += 1
+                        if compare(d, evaluate(single, v), v) is None:
+                            bad = 'iteration:' + out
+                            break
+            if bad:
+                fails.append((dict(action='Batch', op=op, ta=src['t'], outcome=bad, parser='2+',
+                                   sign_a=sign_class(src)), dict(expr=text, parser=v, batch=True),
+                              [d for a, d in dsttext_pairs], obs))
+    for (src, op, b, dst) in scaled:
+        text = f'{scaled_text(src)} {OPS[op]} {scaled_text(b)}'
+        exp = scaled_expected(op, dst)
+        for v in ('2.0', '3.1'):
+            obs = evaluate(text, v)
+            n += 1
+            out = compare(exp, obs, v)
+            if out is not None:
+                fails.append((dict(action='Scaled', op=op, ta=src['t'], tb=b['t'], sign_a=sign_class(src),
+                                   sign_b=sign_class(b), outcome=out, parser='2+',
+                                   expected_kind=('err:' + exp['code']) if exp['t'] == 'err' else sign_class(exp)),
+                              dict(expr=text, parser=v), exp, obs))
+    return n, fails
+
+
 def worker(job):
     edges, versions = job
     fails = []
@@ -268,6 +387,12 @@ def worker(job):
 
 def replay(rec: dict) -> int:
     core.setup_repo_path()
+    if rec['case'].get('batch'):
+        obs = evaluate_seq(rec['case']['expr'], rec['case']['parser'])
+        print('expr     :', rec['case']['expr'], '\nexpected :', rec['expected'], '\nobserved :', obs)
+        bad = isinstance(obs, tuple) or len(obs) != len(rec['expected']) or any(
+            compare(dict(e, q=tuple(e['q'])) if 'q' in e else e, o, rec['case']['parser']) for e, o in zip(rec['expected'], obs))
+        return 1 if bad else 0
     obs = evaluate(rec['case']['expr'], rec['case']['parser'])
     print('expr     :', rec['case']['expr'], ' parser', rec['case']['parser'])
     print('expected :', rec['expected'])
@@ -330,6 +455,33 @@ def run(chk: core.Check) -> None:
         chk.add('distinct_nontrivial', len(nontrivial))
         for e in jobs_edges[:: max(1, len(jobs_edges) // 6)][:6]:
             chk.sample(dict(expr=expr_for(e[1][0][2], e[2], e[3], 'lit'), expected=e[4]))
+        # batches and scaled vectors (see batch_worker)
+        groups: dict = {}
+        scaled = []
+        for s_, d_, a, args in g.edges:
+            src, dst = g.states[s_]['acc'], g.states[d_]['acc']
+            if src['t'] == 'err' or src.get('ap'):
+                continue
+            if a == 'Bin':
+                if dst['t'] != 'err':
+                    groups.setdefault((s_, args[0]), []).append((render(args[1], 'lit'), dst))
+                b = args[1]
+                # (xs:decimal has an implementation-defined precision, 28 digits here: products of two
+                #  scaled decimals exceed it, so multiplication is scaled for integers only)
+                if src['t'] in ('int', 'dec') and b['t'] in ('int', 'dec') and s_ in g.init and \
+                        (dst['t'] == 'err' or not dst.get('ap')) and \
+                        (args[0] != 'mul' or (src['t'] == 'int' and b['t'] == 'int')):
+                    scaled.append((src, args[0], b, dst))
+            elif a in ('RoundTo', 'RoundHE') and dst['t'] != 'err':
+                groups.setdefault((s_, a), []).append((str(args[0]), dst))
+        batches = [(g.states[k[0]]['acc'], k[1], sorted(v, key=lambda x: x[0])) for k, v in groups.items() if len(v) > 1]
+        bres = core.pool_map(batch_worker, [(bc, sc) for bc, sc in zip(core.chunked(batches, 32), core.chunked(scaled, 32) + [[]] * 32)])
+        for n_eval, fails in bres:
+            chk.add('evaluations', n_eval)
+            for feat, case, exp, obs in fails:
+                chk.fail(feat, case, exp, obs, what=case['expr'])
+        chk.coverage['batched_for_expressions'] = chk.coverage.get('batched_for_expressions', 0) + len(batches)
+        chk.coverage['scaled_vectors_3pow40'] = chk.coverage.get('scaled_vectors_3pow40', 0) + len(scaled)
         results = core.pool_map(worker, [(c, versions) for c in core.chunked(jobs_edges, 64)])
         oracle_msgs = []
         for n_eval, fails, oracle in results:
